@@ -71,17 +71,17 @@ def gen(rng, tier):
             trajs = [G.traj(rng, rest, rng.randint(60, 150), sticky=0.6) + rest, [lone] * rng.randint(10, 40)]
             yield {'trajs': trajs, 'lags': [1, 2], 'tmax': rng.randint(4, 9), 'lumped': False, 'alpha': akind, 'mal': None, 'style': 'lone-state'}
     for _ in range(2 if tier == 'quick' else 30):        # arrays of different integer widths, narrow first, > 128 states
-        trajs, dtypes, tag = G.narrow_set(rng, rng.choice(['many-mixed', 'many-unsigned']))
+        trajs, dtypes, tag = G.narrow_set(rng, rng.choice(['many-mixed', 'many-unsigned', 'narrow-many', 'narrow-many', 'full-range']))
         yield {'trajs': trajs, 'lags': [2, 1], 'tmax': 4, 'lumped': False, 'alpha': tag, 'mal': None, 'style': 'narrow', 'dtypes': dtypes}
     for _ in range(8 if tier == 'quick' else 100):
         # lag times handed over as a narrow signed integer array, tmax beyond that type's range
         k = rng.randint(2, 4)
         labs, akind = G.alphabet(rng, k=k)
         trajs = [G.traj(rng, labs, rng.randint(400, 700), sticky=0.8) + labs]
-        lt = rng.choice(['int8', 'int8', 'int16'])
+        lt = rng.choice(['int8', 'int8', 'int16', 'uint8', 'uint8', 'uint16'])
         lags = rng.sample([1, 2, 3, 9, 50, 100], rng.randint(1, 2))
-        tmax = rng.choice([127, 128, 200, 300]) if lt == 'int8' else 40000
-        if lt == 'int16':
+        tmax = rng.choice([127, 128, 200, 300]) if lt in ('int8', 'uint8') else 40000
+        if lt in ('int16', 'uint16'):
             lags = [rng.choice([5000, 9000, 20000])]
             trajs = [G.traj(rng, labs, rng.randint(21000, 24000), sticky=0.8) + labs]
         yield {'trajs': trajs, 'lags': lags, 'tmax': tmax, 'lumped': False, 'alpha': akind, 'mal': None, 'style': 'typed-lags', 'lagtype': lt}
